@@ -78,6 +78,13 @@ def order_leaks(fn, attrs):
     for n in ast.walk(fn):
         if isinstance(n, ast.Assign) and value_is_set(n.value):
             local_sets.update(t.id for t in n.targets if isinstance(t, ast.Name))
+    # set algebra over known sets (`a = set(x) & y`): a second pass so that operands found above count
+    for n in ast.walk(fn):
+        if isinstance(n, ast.Assign) and isinstance(n.value, ast.BinOp) and is_set_expr(n.value, attrs, local_sets):
+            local_sets.update(t.id for t in n.targets if isinstance(t, ast.Name))
+    for n in ast.walk(fn):
+        if False:
+            pass
         if isinstance(n, ast.AnnAssign) and isinstance(n.target, ast.Name) and (ann_is_set(n.annotation) or (n.value is not None and value_is_set(n.value))):
             local_sets.add(n.target.id)
     leaks = []
@@ -153,3 +160,36 @@ if __name__ == "__main__":
     print(s, "writers")
     for x in f:
         print(x)
+
+
+DIAG_MODULES = ["mypy/errors.py", "mypy/messages.py"]
+
+
+def scan_diagnostics():
+    """order-sensitive consumption of set-valued expressions in the functions that build diagnostic
+    text (C10: diagnostics do not depend on the hash seed) -> (functions_seen, [(module, qualname, lineno, text)])"""
+    found, seen = [], 0
+    for rel in DIAG_MODULES:
+        p = os.path.join(REPO, rel)
+        if not os.path.exists(p):
+            continue
+        tree = ast.parse(open(p).read())
+
+        def visit(fn, qual, attrs):
+            nonlocal seen
+            seen += 1
+            okc = sorted_wrapped(fn)
+            for ln, txt in order_leaks(fn, attrs):
+                if txt.startswith("comprehension") and any(isinstance(x, (ast.ListComp, ast.GeneratorExp)) and id(x) in okc and x.lineno == ln for x in ast.walk(fn)):
+                    continue
+                found.append((rel, qual, ln, txt))
+
+        for node in tree.body:
+            if isinstance(node, ast.ClassDef):
+                attrs = set_attrs(node)
+                for m in node.body:
+                    if isinstance(m, ast.FunctionDef):
+                        visit(m, f"{node.name}.{m.name}", attrs)
+            elif isinstance(node, ast.FunctionDef):
+                visit(node, node.name, set())
+    return seen, found
